@@ -155,6 +155,11 @@ func trustedResourceURLFormat(format string, args map[string]string) (TrustedRes
 		// segments or URL components.
 		return safehtmlutil.QueryEscapeURL(argVal)
 	})
+	if err == nil && strings.HasPrefix(ret, "//") && !strings.HasPrefix(format, "//") {
+		// An empty argument right after the leading slash of a path-absolute format would turn
+		// the path into a scheme-relative URL whose host is the next path segment.
+		return TrustedResourceURL{}, fmt.Errorf("arguments for format string %q must not change the host of the URL", format)
+	}
 	return TrustedResourceURL{ret}, err
 }
 
